@@ -156,6 +156,7 @@ CHECKS = {
     'C02': sys_property('C02', also_loop=True),
     'C05': sys_property('C05'),
     'C06': sys_property('C06', also_loop=True),
+    'C08': sys_property('C08'),
     'C10': sys_property('C10'),
     'C17': sys_property('C17'),
     'C12': sys_property('C12'),
